@@ -117,7 +117,7 @@ pub enum Store {
 impl Store {
     pub fn new(backend: Backend, walk_seed: u64, entries: &[FsEntry]) -> Store {
         match backend {
-            Backend::SimFs => {
+            Backend::SimFs | Backend::RealFs => {
                 let fs = SimFs::new(walk_seed);
                 crate::model::populate(&fs, entries);
                 Store::Sim(Arc::new(fs))
@@ -289,4 +289,60 @@ fn stack_bytes() -> usize {
             * 1024
             * 1024
     })
+}
+
+/// Self-check of the hash-order seam: the same hash seed must give the same `HashMap`
+/// iteration order on two carriers and another seed must give another order.
+pub fn hash_seam_selfcheck() -> Result<(), String> {
+    fn order(seed: u64) -> Result<Vec<u32>, String> {
+        on_carrier(seed, || {
+            let mut set = std::collections::HashSet::new();
+            for i in 0..64u32 {
+                set.insert(i);
+            }
+            set.into_iter().collect::<Vec<u32>>()
+        })
+    }
+    let a = order(11)?;
+    let b = order(11)?;
+    let c = order(12)?;
+    if a != b {
+        return Err("hash seam: same seed gave different HashSet orders".to_owned());
+    }
+    if a == c {
+        return Err("hash seam: different seeds gave the same HashSet order (getrandom not interposed?)".to_owned());
+    }
+    Ok(())
+}
+
+thread_local! {
+    static CAPTURED_ERRORS: RefCell<Vec<(String, String)>> = const { RefCell::new(Vec::new()) };
+}
+
+/// A logger that records error-level messages per thread (the watcher reports a failed
+/// pass only through `log::error!`).
+struct CaptureLogger;
+
+impl log::Log for CaptureLogger {
+    fn enabled(&self, metadata: &log::Metadata) -> bool {
+        metadata.level() <= log::Level::Error
+    }
+    fn log(&self, record: &log::Record) {
+        if record.level() <= log::Level::Error {
+            let entry = (record.target().to_owned(), record.args().to_string());
+            let _ = CAPTURED_ERRORS.try_with(|c| c.borrow_mut().push(entry));
+        }
+    }
+    fn flush(&self) {}
+}
+
+static CAPTURE_LOGGER: CaptureLogger = CaptureLogger;
+
+pub fn install_capture_logger() {
+    let _ = log::set_logger(&CAPTURE_LOGGER);
+    log::set_max_level(log::LevelFilter::Error);
+}
+
+pub fn take_captured_errors() -> Vec<(String, String)> {
+    CAPTURED_ERRORS.with(|c| std::mem::take(&mut *c.borrow_mut()))
 }
